@@ -25,7 +25,7 @@ LEVEL_NOTE = (
     "secured APDU, MAC; unprotected = priority, repeat, hop count, frame type. Message code, additional-info length, length octet and "
     "the remaining Ctrl1 bits (reserved, system broadcast, ack request, confirm) carry no claim: outcome recorded, not judged. "
     "Second layer at SecureData.get_plain_apdu (address type, frame format and TPCI can not reach the MAC through the frame path "
-    "because such frames are refused earlier). T_Data_Connected is left out there (C19 finding: B0 overflows)."
+    "because such frames are refused earlier); an exception other than DataSecureError there is recorded, not judged (not a delivery)."
 )
 SHARDS = {"quick": 1, "thorough": 16}
 TIMEOUT = {"quick": 200, "thorough": 2000}
@@ -233,7 +233,9 @@ def _api(ctx, spec, rng):
     ctx.count("api_baseline_ok")
     variants = [("address_type", dict(address_type=CEMIAddressType.INDIVIDUAL)),
                 ("extended_frame_format", dict(frame_format=CEMIFrameFormat.LTE_HEE)),
-                ("tpci", dict(tpci=tpci.TDataTagGroup() if t0.to_knx() == 0 else tpci.TDataGroup()))]
+                ("tpci", dict(tpci=tpci.TDataTagGroup() if t0.to_knx() == 0 else tpci.TDataGroup())),
+                # another TPCI *octet* (T_Data_Individual / Broadcast share octet 0 with T_Data_Group: same frame, not tampering)
+                ("tpci", dict(tpci=tpci.TDataConnected(sequence_number=rng.randrange(16))))]
     for raw_scf in range(256):
         try:
             other = SecurityControlField.from_knx(raw_scf)
@@ -293,7 +295,7 @@ def run(ctx):
                 "rejected_mac", "rejected_secured_apdu", "rejected_sequence_number", "rejected_scf", "rejected_source",
                 "rejected_destination", "rejected_tpci", "rejected_address_type", "rejected_extended_frame_format",
                 "api_rejected_address_type", "api_rejected_extended_frame_format", "api_rejected_tpci")
-    nframes = ctx.scale(44, 6400)
+    nframes = ctx.scale(44, 4800)
     with observing_management():
         for i in range(nframes):
             alg = ("enc", "auth")[i % 2]
